@@ -280,9 +280,13 @@ MATRIX_IDENTITY: Matrix = (1, 0, 0, 1, 0, 0)
 def parse_rect(o: Any) -> Rect:
     try:
         (x0, y0, x1, y1) = o
-        return float(x0), float(y0), float(x1), float(y1)
+        rect = (float(x0), float(y0), float(x1), float(y1))
     except (TypeError, ValueError, OverflowError):
         raise PDFValueError("Could not parse rectangle")
+    if not all(math.isfinite(v) for v in rect):
+        # a real of hundreds of digits parses as infinity
+        raise PDFValueError("Could not parse rectangle")
+    return rect
 
 
 def mult_matrix(m1: Matrix, m0: Matrix) -> Matrix:
